@@ -161,6 +161,9 @@ func c10Step(el *[c10E]*secp256k1.Element, sc *[c10S]*secp256k1.Scalar, m c10Mod
 			case "=EncodeToGroup":
 				el[o.i] = secp256k1.EncodeToGroup(c10Msg, c10DST)
 				nm.e[o.i] = c10E2G
+			case "=HashToGroup(longDST)":
+				el[o.i] = secp256k1.HashToGroup(c10Msg, c10LongDST)
+				nm.e[o.i] = c10H2GLong
 			case "=NewElement":
 				el[o.i] = secp256k1.NewElement()
 				nm.e[o.i] = ref.Infinity()
@@ -240,6 +243,9 @@ func c10Step(el *[c10E]*secp256k1.Element, sc *[c10S]*secp256k1.Scalar, m c10Mod
 		case "=HashToScalar":
 			sc[o.i] = secp256k1.HashToScalar(c10Msg, c10DST)
 			nm.s[o.i] = c10H2S
+		case "=HashToScalar(longDST)":
+			sc[o.i] = secp256k1.HashToScalar(c10Msg, c10LongDST)
+			nm.s[o.i] = c10H2SLong
 		case "Set":
 			r.Set(a)
 			nm.s[o.i] = m.s[o.j]
